@@ -20,10 +20,10 @@ SPEC = dict(
                  'g++ 12 ASan/UBSan/LSan and valgrind memcheck report what they claim to report'],
     legs=[
         Leg('regress', 'h_hashtable', 'asan', opts={'mode': 'regress'}, quick=1, thorough=1, workers=1, leaks=True, min_cases=1),
-        Leg('ops', 'h_hashtable', 'asan', opts={'mode': 'ops'}, quick=12000, thorough=1200000, workers=16, leaks=True),
-        Leg('boundary', 'h_hashtable', 'asan', opts={'mode': 'boundary', 'big_every': '20'}, quick=600, thorough=30000, workers=16, leaks=True, cpu_budget=120.0),
-        Leg('ordered', 'h_hashtable', 'asan', opts={'mode': 'ordered'}, quick=3000, thorough=300000, workers=16, leaks=True),
-        Leg('surface', 'h_hashtable', 'asan', opts={'mode': 'surface'}, quick=6000, thorough=600000, workers=16, leaks=True),
+        Leg('ops', 'h_hashtable', 'asan', opts={'mode': 'ops'}, quick=12000, thorough=300000, workers=16, leaks=True),
+        Leg('boundary', 'h_hashtable', 'asan', opts={'mode': 'boundary', 'big_every': '20'}, quick=600, thorough=15000, workers=16, leaks=True, cpu_budget=120.0),
+        Leg('ordered', 'h_hashtable', 'asan', opts={'mode': 'ordered'}, quick=3000, thorough=75000, workers=16, leaks=True),
+        Leg('surface', 'h_hashtable', 'asan', opts={'mode': 'surface'}, quick=6000, thorough=150000, workers=16, leaks=True),
         Leg('memcheck', 'h_hashtable', 'plain', opts={'mode': 'ops'}, quick=240, thorough=4800, workers=16, valgrind=True),
         Leg('memcheck_surface', 'h_hashtable', 'plain', opts={'mode': 'surface'}, quick=120, thorough=2400, workers=8, valgrind=True),
         Leg('memcheck_ordered', 'h_hashtable', 'plain', opts={'mode': 'ordered'}, quick=60, thorough=1200, workers=8, valgrind=True),
